@@ -5,13 +5,18 @@ C12 — model of `oxidize-pdf-core/src/text/fonts/truetype_subsetter.rs`
 `filter_mapping_to_used`, `should_skip_subsetting`) over an ABSTRACT font.
 
 Abstraction (what the independent sfnt reader of the harness extracts from font bytes):
-  * `glyph : Gid → Glyph`   — `empty` (zero-length glyf entry), `simple fp` (fp = fingerprint of
-                               contour count, bbox, endPts and the decoded point list — hinting
-                               instructions are NOT part of it, the subsetter strips them),
-                               `composite hdr comps` (hdr = fingerprint of the bbox, comps =
-                               component glyph id × fingerprint of flags/arguments/transform),
-                               `bad` (`get_glyph_data` returns `Err`: entry lies beyond the file)
-  * `adv`, `lsb`             — hmtx entries (`get_glyph_metrics`)
+  * `glyph : Gid → Glyph`   — what `TrueTypeFont::get_glyph_data` + a glyph decoder see:
+                               `empty` (`Ok(vec![])`: the id's loca entry pair lies outside the
+                               loca TABLE, or start ≥ end — checked BEFORE any bounds check, so
+                               an empty entry beyond a truncated glyf is still empty),
+                               `simple fp` (fp = fingerprint of contour count, bbox, endPts and
+                               the decoded point list — hinting instructions are NOT part of it,
+                               the subsetter strips them), `composite hdr comps` (hdr =
+                               fingerprint of the bbox, comps = component glyph id × fingerprint
+                               of flags/arguments/transform), `bad` (`get_glyph_data` returns
+                               `Err`: glyf.offset + end lies beyond the FILE, or the loca entry
+                               does).  Neither numGlyphs nor glyf's declared length is consulted.
+  * `adv`, `lsb`             — hmtx entries (`get_glyph_metrics(old).unwrap_or((units_per_em, 0))`)
   * `cmap : Nat → Option Gid` — the selected Unicode cmap subtable (`cmap.mappings`)
 Transcription:
   * `HashSet<u16>`           ↦ duplicate-free `List Gid` (membership only is observable; the
